@@ -68,7 +68,8 @@ def source(case, d, tag, seed):
     text = (('C06 %s ' % case['geom']) * 400)[:3200].encode('ascii')
     inputs.write_segy_traces(sgy, traces, float(case['delay']) + 4.0 * np.arange(nz), H, fmt=case['fmt'], text=text,
                              bin_fields={segyio.BinField.JobID: 77, segyio.BinField.LineNumber: -3, segyio.BinField.Traces: n + 3,
-                                         segyio.BinField.SortingCode: 4, segyio.BinField.MeasurementSystem: 2})
+                                         segyio.BinField.SortingCode: 4, segyio.BinField.MeasurementSystem: 2,
+                                         **({} if case.get('binint') is None else {segyio.BinField.Interval: case['binint']})})
     if case.get('text') == 'nul':       # a textual header that was never filled in
         with open(sgy, 'r+b') as f:
             f.write(bytes(3200))
@@ -189,7 +190,9 @@ def plan(run):
             # rate 16 / 32 keep neighbouring traces distinguishable for the order check at any setting
             cases.append({'geom': g, 'fmt': (5, 1)[k % 2], 'bg': ('mix', 'ramp', 'const', 'zero')[k % 4], 'mode': ('thorough', 'exhaustive', 'heuristic')[k % 3],
                           'rate': st[0], 'bs': list(st[1]) if st[1] else None, 'route': 'cli' if k % 5 == 0 else 'api', 'nz': (6, 40, 9)[k % 3],
-                          'delay': (0, 8, -12, 100)[k % 4], 'text': (None, 'nul', None, 'spaces', None, None)[k % 6]})
+                          'delay': (0, 8, -12, 100)[k % 4], 'text': (None, 'nul', None, 'spaces', None, None)[k % 6],
+                          # the sample interval in the binary header: as in the trace headers, absent (0), or contradicting them
+                          'binint': (None, None, 0, None, 3000, None, None)[k % 7]})
             k += 1
     return cases
 
